@@ -129,7 +129,7 @@ func runC01(c *Check) {
 						return false
 					}
 					lk := l.T.Args[0]
-					return lk.Op == "lookup" && lk.Args[0].V == m && lk.Args[1].V == host
+					return lk.Op == "lookup" && lk.Args[0].V == m && (lk.Args[1].V == host || sameValue(lk.Args[1], p.T(host)))
 				}
 			}
 			c.Gate(fa, ap, nthKey("quorum:append-ro-ok", n), "a host is counted as frozen only if its read-only result was nil", resNil(errs1))
@@ -524,6 +524,9 @@ func checkSearchVerify(c *Check) {
 				return false
 			}
 			sel = l.T.Args[1]
+			if sel.IsField("gtidset") && len(sel.Args) == 1 {
+				sel = sel.Args[0] // the set of the selection is handed over instead of the selection
+			}
 			return true
 		}
 		if c.Gate(fa, r, nthKey("search:verified", n), "'no split brain' is answered only after the verification pass over all positions returned false", verified) {
@@ -543,12 +546,49 @@ func checkSearchVerify(c *Check) {
 	for _, ci := range p.Calls(d, gtidContain) {
 		contain = ci
 	}
+	// the selection may be handed over as a position (its .gtidset is used) or as the set itself
+	isSelSet := func(t *Term) bool {
+		return (t.IsField("gtidset") && t.Args[0].Op == "param" && t.Args[0].Name == "1") || (t.Op == "param" && t.Name == "1")
+	}
 	if contain == nil {
+		// library form: return slices.ContainsFunc(positions, func(n) bool { return !selected.Contain(n.gtidset) })
+		okLib := false
+		for _, cf := range p.Calls(d, "slices.ContainsFunc") {
+			whole := p.T(cf.Common().Args[0])
+			mc, isMC := cf.Common().Args[1].(*ssa.MakeClosure)
+			if !(whole.Op == "param" && whole.Name == "0") || !isMC {
+				continue
+			}
+			cl := mc.Fn.(*ssa.Function)
+			inner := p.Calls(cl, gtidContain)
+			if len(inner) != 1 || len(cl.Params) != 1 {
+				continue
+			}
+			recv, args := recvArgs(inner[0])
+			rt, at := p.T(recv), p.T(args[0])
+			dir := isSelSet(rt) && at.IsField("gtidset") && at.Args[0].V == ssa.Value(cl.Params[0])
+			neg := true
+			for _, r := range Returns(cl) {
+				t := p.T(r.Results[0])
+				neg = neg && t.Op == "not" && len(t.Args) == 1 && ResultOf(t.Args[0], -1) != nil && ResultOf(t.Args[0], -1).In == ssa.Instruction(inner[0].(ssa.Instruction))
+			}
+			ret := true
+			for _, r := range Returns(d) {
+				ret = ret && r.Results[0] == cf.Value()
+			}
+			c.Req(dir, dname, p.InstrPos(inner[0]), "verify:direction", "the verification tests selected.Contain(other) for each element of the whole input", "test is "+rt.String()+".Contain("+at.String()+")")
+			c.Req(neg && ret, dname, p.InstrPos(cf), "verify:miss-is-splitbrain", "a position not contained in the selection makes the verification answer 'split brain' (ContainsFunc over the negated test, returned as it is)", "")
+			c.Hold(dname, p.InstrPos(cf), "verify:no-early-exit", "ContainsFunc answers false only after every element was tested")
+			okLib = true
+		}
+		if okLib {
+			return
+		}
 		panic(AnchorError{"Contain call in " + dname})
 	}
 	recv, args := recvArgs(contain)
 	rt, at := p.T(recv), p.T(args[0])
-	okdir := rt.IsField("gtidset") && rt.Args[0].Op == "param" && rt.Args[0].Name == "1" &&
+	okdir := isSelSet(rt) &&
 		at.IsField("gtidset") && elementOfParam(at.Args[0], "0")
 	c.Req(okdir, dname, p.InstrPos(contain), "verify:direction", "the verification tests selected.Contain(other) for each element of the whole input", "test is "+rt.String()+".Contain("+at.String()+")")
 	// failing test returns true; no exit with false from inside the loop
